@@ -1005,8 +1005,8 @@ def search(ob, wit=None):
         return check_resolver("_normalize_relative_path") or witness("resolution", "pptx")
     if "_resolve_drawing_path" in ob:
         return check_resolver("_resolve_drawing_path")
-    if "lookup-table-scope" in ob:
-        return witness("dangling", fmt)
+    if "lookup-table-scope" in ob or "relationship-table-of-the-given-part" in ob or "relationships-of-the-slide-being-processed" in ob:
+        return witness("dangling", fmt) or sweep(fmt, ("resolution", "bytes", "unit"))
     for lab, kind in (("#slide-part", "slide-target"), ("#drawing-relationship-part", "drawing-dir"), ("#sheet-relationship-part", "sheet-order")):
         if lab in ob:
             return witness(kind, fmt)
